@@ -7,7 +7,15 @@ From Coq Require Import Strings.String Strings.Byte.
 From Coq Require Import List NArith.
 From Goit Require Import Bytes World Repo MonadFacts.
 From Goit Require Import Inv ConnectedFacts.
+From Goit Require Import Bridge.
 Import ListNotations.
+
+(* T0 (tie to the source): every regexp literal of the current Go source denotes
+   the same language, with the same anchoring, as the pattern of the model — proved
+   by running the verified equivalence checker on SrcRegex.v, which is regenerated
+   from /repo on every run (see Bridge.v) *)
+Theorem C16_source_patterns_are_the_models : source_patterns_agree.
+Proof. exact source_patterns. Qed.
 
 (* T1: if the failing effect is one the fault-free run performs, the command
    ends with an error — it never reports success after a modification it
@@ -44,3 +52,4 @@ Proof. exact reachable_fault_safe. Qed.
 Print Assumptions C16_failure_is_reported.
 Print Assumptions C16_no_failure_no_difference.
 Print Assumptions C16_fault_safe.
+Print Assumptions C16_source_patterns_are_the_models.
